@@ -696,6 +696,11 @@ func (c *Chain) makeAttesterSlashing(st *refspec.State, blockProposer uint64) (r
 	return refspec.AttesterSlashing{Attestation1: sign(d1), Attestation2: sign(d2)}, true
 }
 
+// MakeAttestation builds a signed aggregate of committee ci of slot s as seen from st (helper for mutators).
+func (c *Chain) MakeAttestation(st *refspec.State, s, ci uint64, plan Plan) (refspec.Attestation, bool) {
+	return c.makeAttestation(st, s, ci, plan)
+}
+
 func (c *Chain) makeAttestation(st *refspec.State, s, ci uint64, plan Plan) (refspec.Attestation, bool) {
 	sp := c.Sp
 	te := sp.EpochAtSlot(s)
